@@ -668,7 +668,8 @@ class Interp:
             a, b = self.val(env, a, ty), self.val(env, b, ty)
             if isinstance(a, Ptr) or isinstance(b, Ptr):
                 same = a.is_null() == b.is_null() and (a.is_null() or (a.region == b.region and z3.is_true(z3.simplify(a.off == b.off))))
-                if not (a.is_null() or b.is_null()):
+                if not (a.is_null() or b.is_null()) and not (a.region[0] in ('pyobj', 'pyval', 'global') and b.region[0] in ('pyobj', 'pyval', 'global')):
+                    # (named CPython objects - None, a callback - are distinct objects: comparing them is decidable)
                     raise HarnessError('comparison of two non-null pointers')
                 env[dst] = z3.BoolVal(same if pred == 'eq' else not same)
                 return
